@@ -63,7 +63,8 @@ theorem suffix_split {p q s : Bytes} (h : p ++ q = s ++ [LF]) (hq : q ≠ []) :
       exact ⟨s', h1, by rw [h.1, h2]; rfl⟩
 
 /-- coarse view of a step: what was consumed contains no line feed (same line), or it is blanks
-    followed by exactly one line feed (next line, column 1, at line start). -/
+    (and possibly a carriage return) followed by exactly one line feed (next line, column 1, at
+    line start). -/
 theorem Step.coarse {z : Z} {r : Token × Z} (h : Step z r) :
     ∃ cons, z.after = cons ++ r.2.after ∧ r.2.before = cons.reverse ++ z.before ∧
       ((LF ∉ cons ∧ r.2.line = z.line ∧ r.1.ty ≠ .newline) ∨
@@ -79,9 +80,14 @@ theorem Step.coarse {z : Z} {r : Token × Z} (h : Step z r) :
     rcases List.mem_append.mp hm with hm | hm
     · exact nosp sp hsp hm
     · exact hpre hm
-  | newline sp hsp hafter hbefore hline hcol hstart hty hpl hpo hstop =>
-    exact ⟨sp ++ [LF], by simp [hafter], by simp [hbefore],
-      Or.inr ⟨sp, rfl, nosp sp hsp, hline, hcol, hstart, hty⟩⟩
+  | newline sp cr hsp hcr hafter hbefore hline hcol hstart hty hpl hpo hstop =>
+    have hnocr : LF ∉ sp ++ cr := by
+      intro hm
+      rcases List.mem_append.mp hm with hm | hm
+      · exact nosp sp hsp hm
+      · rcases hcr with rfl | rfl <;> simp at hm
+    exact ⟨sp ++ cr ++ [LF], by simp [hafter], by simp [hbefore],
+      Or.inr ⟨sp ++ cr, rfl, hnocr, hline, hcol, hstart, hty⟩⟩
 
 theorem lexS_local_aux (C : Classes) (b : Bytes) (n : Nat) (z : Z) (s : Bytes) (hn : s.length ≤ n)
     (hz : z.after = s ++ [LF]) :
